@@ -86,6 +86,11 @@ class Center:
         else:
             res = self.offset
 
+        if hasattr(res, "form"):
+            # The offset is a vector: position and velocity, whatever the form
+            # the state is held in
+            res = res.copy(form="cartesian")
+
         return self.orientation.convert_to(date, orientation) @ res
 
 
